@@ -161,6 +161,22 @@ def _inline_paths(plan: List[Tuple[Ratio, Unit, Unit, Exponent]]) -> Plan:
 def _replace_factors(factors: Dict[Dimension, List[Unit]]) -> RoughPlan:
     plan: RoughPlan = []
 
+    # what each unit has been spelled out into so far: a unit is never replaced by
+    # something that is (in turn) spelled out into that unit again, or two units declared
+    # in terms of one another (F = P m², P = F / m²) would replace each other forever
+    spelled_out: Dict[Unit, Set[Unit]] = {}
+
+    def leads_back_to(unit: Unit, alternative: Unit) -> bool:
+        pending, seen = list(alternative.factors), set()
+        while pending:
+            factor = pending.pop()
+            if factor is unit:
+                return True
+            if factor not in seen:
+                seen.add(factor)
+                pending.extend(spelled_out.get(factor, ()))
+        return False
+
     # Continue looking for replacements until the plan stops changing
     previous_plan_size = -1
     while len(plan) != previous_plan_size:
@@ -188,7 +204,9 @@ def _replace_factors(factors: Dict[Dimension, List[Unit]]) -> RoughPlan:
                         unit.factors.values()
                     )
 
-                    if has_more_factors or has_smaller_factors:
+                    if (
+                        has_more_factors or has_smaller_factors
+                    ) and not leads_back_to(unit, alternative):
                         replacements.append((dimension, unit, alternative))
                         break
 
@@ -200,6 +218,7 @@ def _replace_factors(factors: Dict[Dimension, List[Unit]]) -> RoughPlan:
                 overall_sign = -1
 
             ratio = _ratios[unit][alternative]
+            spelled_out.setdefault(unit, set()).update(alternative.factors)
 
             _clean_remove(factors, dimension, unit)
             for unit, exponent in alternative.factors.items():
